@@ -269,7 +269,7 @@ def snake_chunks(n, first_avail_bytes):
     return out
 
 
-def h_snake(ctx, n, prefix_bytes=0, sym_window=None, as_string=False):
+def h_snake(ctx, n, prefix_bytes=0, sym_window=None, as_string=False, prefix_bits=0):
     """snake-chained byte strings: round trip and chain layout; contents symbolic (entirely, or a window of
     `sym_window` bytes at the chunk boundary with concrete filler for the very long ones)"""
     if sym_window is None or sym_window >= n:
@@ -282,6 +282,9 @@ def h_snake(ctx, n, prefix_bytes=0, sym_window=None, as_string=False):
         data = filler[:lo] + ctx.bytes_('data', sym_window) + filler[lo + sym_window:]
     pre = ctx.bytes_('pre', prefix_bytes)
     b = Builder().store_bytes(pre)
+    xbits = ctx.bitstr('prebits', prefix_bits) if prefix_bits else ''      # a non-aligned prefix: less than a byte of room may be left
+    if prefix_bits:
+        b.store_bits(xbits)
     if as_string:
         b.store_snake_string(data)
         raw = data.encode() if n else b''
@@ -289,10 +292,10 @@ def h_snake(ctx, n, prefix_bytes=0, sym_window=None, as_string=False):
         b.store_snake_bytes(data)
         raw = data
     c = b.end_cell()
-    chunks = snake_chunks(n, 127 - prefix_bytes)
+    chunks = snake_chunks(n, (1023 - 8 * prefix_bytes - prefix_bits) // 8)
     cur, off = c, 0
     for i, k in enumerate(chunks):
-        want = cat_bits(bits_of_bytes(pre) if i == 0 else '', bits_of_bytes(raw[off: off + k]))
+        want = cat_bits(bits_of_bytes(pre) if i == 0 else '', xbits if i == 0 else '', bits_of_bytes(raw[off: off + k]))
         ctx.require(cur.bits.to01() == want, f'snake: cell {min(i, 3)} holds the next bytes')
         off += k
         last = i == len(chunks) - 1
@@ -301,6 +304,8 @@ def h_snake(ctx, n, prefix_bytes=0, sym_window=None, as_string=False):
             cur = cur.refs[0]
     s = c.begin_parse()
     ctx.require(s.load_bytes(prefix_bytes) == pre if prefix_bytes else True, 'snake: prefix read back')
+    if prefix_bits:
+        ctx.require(s.load_bits(prefix_bits).to01() == xbits, 'snake: prefix read back')
     got = s.load_snake_string() if as_string else s.load_snake_bytes()
     ctx.require(got == data, 'snake: round trip')
     ctx.require(And(s.remaining_bits == 0, s.remaining_refs == 0), 'snake: nothing left')
@@ -379,6 +384,11 @@ def instances(tier, seed):
         if n:
             yield 'h_snake', dict(n=n, prefix_bytes=3)
     yield 'h_snake', dict(n=130, as_string=True)
+    # the head cell is (almost) full when the snake string is stored: room for one byte, for none, for a few bits only
+    for pb, xb in ((126, 0), (127, 0), (126, 7), (127, 4), (127, 7), (125, 9)):
+        for n in (1, 2, 130):
+            yield 'h_snake', dict(n=n, prefix_bytes=pb, prefix_bits=xb)
+    yield 'h_snake', dict(n=3, prefix_bytes=127, as_string=True)
     if tier == 'thorough':
         yield 'h_snake', dict(n=127 * 40, sym_window=16)
 
